@@ -93,7 +93,7 @@ def _limits(mem_gb):
     return f
 
 
-def _exec_harness(binp, jobs, outdir, tag, threads, timeout, stack_mb, mem_gb=None):
+def _exec_harness(binp, jobs, outdir, tag, threads, timeout, stack_mb, mem_gb=None, job_timeout_ms=0):
     jp = os.path.join(outdir, tag + ".jobs.ndjson")
     op = os.path.join(outdir, tag + ".out.ndjson")
     with open(jp, "w") as f:
@@ -106,10 +106,18 @@ def _exec_harness(binp, jobs, outdir, tag, threads, timeout, stack_mb, mem_gb=No
     # reported as an abort of that job), not eat the machine
     mem_gb = mem_gb or (threads * stack_mb / 1024.0 + 4.0)
     try:
-        p = subprocess.run([binp, "exec", jp, op, "--threads", str(threads), "--stack-mb", str(stack_mb)],
+        p = subprocess.run([binp, "exec", jp, op, "--threads", str(threads), "--stack-mb", str(stack_mb),
+                            "--job-timeout-ms", str(job_timeout_ms)],
                            stdout=subprocess.PIPE, stderr=subprocess.PIPE, timeout=timeout, preexec_fn=_limits(mem_gb))
         if p.returncode != 0:
+            err = p.stderr.decode(errors="replace")[-2000:]
             status = "crash:%d" % p.returncode
+            if p.returncode == 3:
+                status = "watchdog"
+            elif "overflowed its stack" in err:
+                status = "stack-overflow"
+            elif "memory allocation" in err and "failed" in err:
+                status = "out-of-memory"
     except subprocess.TimeoutExpired:
         status = "timeout"
     res = {}
@@ -129,7 +137,7 @@ def _exec_harness(binp, jobs, outdir, tag, threads, timeout, stack_mb, mem_gb=No
 MAX_ATTRIBUTED_CRASHES = 6
 
 
-def run_jobs(jobs, outdir, tag="jobs", threads=None, timeout=600, per_job_timeout=15, stack_mb=64):
+def run_jobs(jobs, outdir, tag="jobs", threads=None, timeout=600, per_job_timeout=15, stack_mb=64, job_timeout_ms=0):
     """Runs jobs on the real code. Returns one result per job, in order. A job that kills the
     process (native stack overflow, abort, memory exhaustion) or hangs is re-run alone and reported
     as {"k":"abort"} / {"k":"timeout"} - data, not a tool error. Jobs that merely shared a process with
@@ -139,7 +147,7 @@ def run_jobs(jobs, outdir, tag="jobs", threads=None, timeout=600, per_job_timeou
     binp = build_harness()
     os.makedirs(outdir, exist_ok=True)
     threads = threads or min(NCPU, 12)
-    status, res = _exec_harness(binp, jobs, outdir, tag, threads, timeout, stack_mb)
+    status, res = _exec_harness(binp, jobs, outdir, tag, threads, timeout, stack_mb, job_timeout_ms=job_timeout_ms)
     missing = [i for i in range(len(jobs)) if i not in res]
     if missing and status == "ok":
         raise ToolError("harness lost results without crashing")
@@ -147,12 +155,12 @@ def run_jobs(jobs, outdir, tag="jobs", threads=None, timeout=600, per_job_timeou
     rounds = 0
     while missing and attributed < MAX_ATTRIBUTED_CRASHES:
         rounds += 1
-        if len(missing) > 24 and rounds <= 8:
+        if (len(missing) > 24 and rounds <= 8) or (job_timeout_ms and rounds <= 40 and len(missing) > 1):
             # many missing: most were innocent bystanders of one crash; run them again together,
             # single-threaded chunks so that a crash loses little
             sub = [jobs[i] for i in missing]
             st2, r2 = _exec_harness(binp, sub, outdir, tag + ".retry", 1 if rounds > 2 else max(1, threads // 2),
-                                    timeout, stack_mb)
+                                    timeout, stack_mb, job_timeout_ms=job_timeout_ms)
             got = 0
             for k, i in enumerate(missing):
                 if k in r2:
@@ -161,7 +169,8 @@ def run_jobs(jobs, outdir, tag="jobs", threads=None, timeout=600, per_job_timeou
             if got:
                 continue
         i = missing[0]
-        st, r1 = _exec_harness(binp, [jobs[i]], outdir, tag + ".solo", 1, per_job_timeout, stack_mb, mem_gb=3.0)
+        st, r1 = _exec_harness(binp, [jobs[i]], outdir, tag + ".solo", 1, per_job_timeout, stack_mb, mem_gb=3.0,
+                               job_timeout_ms=job_timeout_ms)
         if 0 in r1:
             r = r1[0]; r["idx"] = i; res[i] = r
         else:
